@@ -11,6 +11,7 @@ import GwModel.Point
 import GwModel.FindPts
 import GwModel.Drv.PlanCodec
 import GwModel.Exec.Machine
+import GwModel.ExecSeq
 /-! gwdrv: one JSON object per line in, one per line out (DESIGN §2.2). Core + Lean.Data.Json only. -/
 open Lean Codec
 
@@ -135,6 +136,36 @@ def runFindPts (j : Json) : Json :=
     | _ => return Json.mkObj [("error", .str "chunk-not-object")]
   (act.run {}).1
 
+/-- {"roots":[step…], "replies":[{"sid","id","data","err"}], "depth":n} with step =
+    {"sid","strip","nodeParent","kids":[{"infos":[…],"step":{…}}]}: the response before scrubbing, the number of
+    failed tasks and of calls, as `Xs.run` computes them -/
+partial def decXStep (j : Json) : StateM Intern Xs.XStep := do
+  let mut kids : List (List Fp.PInfo × Xs.XStep) := []
+  for k in getArr j "kids" do
+    let mut infos : List Fp.PInfo := []
+    for i in getArr k "infos" do
+      let key ← Intern.intern (getStr i "key")
+      infos := infos ++ [{ key := key, found := getBool i "found", isList := getBool i "isList", nonNull := getBool i "nonNull" }]
+    let st ← decXStep ((getObj? k "step").getD (Json.mkObj []))
+    kids := kids ++ [(infos, st)]
+  pure (.mk (getNat j "sid") (getBool j "strip") (getBool j "nodeParent") kids)
+
+def runExec (j : Json) : Json :=
+  let act : StateM Intern Json := do
+    let _ ← Intern.intern "id"     -- key 0
+    let _ ← Intern.intern "node"   -- key 1 (Xs.nodeKey)
+    let roots ← (getArr j "roots").mapM decXStep
+    let mut replies : List Xs.Reply := []
+    for r in getArr j "replies" do
+      let d ← decIns ((getObj? r "data").getD (Json.mkObj []))
+      let kvs := match d with | .obj k => k | _ => []
+      replies := replies ++ [{ sid := getNat r "sid", id := getStr r "id", data := kvs, err := getBool r "err" }]
+    let st := Xs.run renderId replies (getNat j "depth" + 1) roots
+    let tbl ← MonadState.get
+    return Json.mkObj [("data", encIns tbl st.acc), ("failed", .num (JsonNumber.fromNat st.failed)),
+      ("calls", .num (JsonNumber.fromNat st.calls)), ("missing", .num (JsonNumber.fromNat st.missing))]
+  (act.run {}).1
+
 def runPoint (j : Json) : Json :=
   let p := (getStr j "point").toList
   match Pt.parsePoint p with
@@ -178,6 +209,7 @@ def handle (j : Json) : Json :=
   | "merge" => runMerge j
   | "plan" => PlanCodec.runPlan j
   | "trace" => runTrace j
+  | "exec" => runExec j
   | "insert" => runInsert j
   | "point" => runPoint j
   | "findpts" => runFindPts j
